@@ -59,6 +59,21 @@ def gen_case(rng, name):
     return dict(op=name, bw=bw, freq=freq.tolist(), rows=rows.tolist(), fcs=fcs, kind=str(kind), n=n, dt=dt)
 
 
+def gen_exact_case(rng, name):
+    """dyadic grid (df = 0.25 Hz), on-grid centre frequencies and a bandwidth that is an even multiple of df: samples sit
+    EXACTLY on both window edges; every quantity in the limit test is exactly representable, so the case is compared exactly"""
+    n = int(rng.choice([200, 400, 800])); dt = {200: 0.02, 400: 0.01, 800: 0.005}[n]
+    freq = np.fft.rfftfreq(n, dt)                      # multiples of 0.25
+    nf = len(freq)
+    nrows = int(rng.integers(1, 4))
+    rows = rng.integers(1, 9, (nrows, nf)).astype(float)
+    if rng.random() < 0.5:
+        rows = 1.0 + np.tile(freq, (nrows, 1))          # ramp: an asymmetric window shifts the average
+    fcs = [float(freq[int(rng.integers(8, nf - 8))]) for _ in range(6)]
+    bw = float(0.25 * 2 * int(rng.integers(1, 5)))      # 0.5, 1.0, 1.5, 2.0
+    return dict(op=name, bw=bw, freq=freq.tolist(), rows=rows.tolist(), fcs=fcs, kind="exact", n=n, dt=dt)
+
+
 def impl(case, interpreted):
     import hvsrpy.smoothing as sm
     f = np.array(case["freq"]); rows = np.array(case["rows"]); fcs = np.array(case["fcs"])
@@ -162,6 +177,7 @@ def run(ctx):
     rng = np.random.default_rng(ctx.seed)
     n = ctx.budget(420, 6000)
     cases = [gen_case(rng, OPS[i % len(OPS)]) for i in range(n)]
+    cases += [gen_exact_case(rng, ["linear_rectangular", "linear_triangular"][i % 2]) for i in range(ctx.budget(30, 300))]
     outs = run_driver([model_line(c) for c in cases])
     for i, (c, o) in enumerate(zip(cases, outs)):
         mo = parse(o)
@@ -187,7 +203,7 @@ def run(ctx):
                 continue
             if differs(im, mo):
                 near = (sg_margin(c) < 1e-6) if c["op"] == "savitzky_and_golay" else (window_margin(c) < 1e-9)
-                if near:
+                if near and c["kind"] != "exact":
                     ctx.near_tie_skipped += 1
                     continue
                 ctx.violation("weight-normalised-average-under-published-kernel",
